@@ -120,6 +120,14 @@ func (i *Inst) RunOidc(s *OiScript, tw *TraceWriter, rng *rand.Rand) error {
 			useState = fmt.Sprintf("%032x", rng.Int63())
 		case "expired":
 			time.Sleep(125 * time.Second)
+		case "expired-after-failed":
+			// the state is used for a failing callback half-way through its two minutes (the IdP refuses the code); that
+			// must not give it a new lease: 130 s after it was issued it is expired
+			time.Sleep(70 * time.Second)
+			if cb, err := callbackURL(b, authURL, loginFor("refuse", user)); err == nil {
+				b.Get(withState(cb, state))
+			}
+			time.Sleep(60 * time.Second)
 		case "reused":
 			cb, err := callbackURL(b, authURL, loginFor("ok", user))
 			if err != nil {
